@@ -1463,7 +1463,9 @@ def case_history(ctx, case):
             cur.nodes = nodes
             st, e = outcome(lambda: navis.write_h5(cur, str(d / 'b.h5'), serialized=False, raw=True))
             if st == 'raise':
-                # the raw reader does not restore the name; a neuron whose name is None cannot be written
+                # the raw reader does not restore the name of a skeleton (it arrives as `neuron_name`), so `cur.name` is None here;
+                # since the repair of get_neuron_group a neuron without a name is written (no `neuron_name` attribute) – a raise
+                # is reported under the signature of the repaired defect and the history continues with a name
                 ctx.oracle(False, f'history read_h5 → write_h5: write raises {type(e).__name__}: {str(e)[:80]} (neuron.name = {cur.name!r})',
                            case, signature='H5Writer.get_neuron_group/name=None/TypeError' if cur.name is None else None)
                 if cur.name is not None:
